@@ -33,6 +33,10 @@ Covered by theorem (for all inputs of the stated shape, each with an explicit fu
   StructLike, Struct, Exception, Union (fields forced optional): `c10_struct_roundtrip`;
   Literal: exact consumption for both quote styles (`c10_literal_consumed`), value round trip for the
   double-quoted style with its escapes (`c10_string_literal_partial`, counterexample for the finding);
+  include resolution and the parse cache of parser.go (`FV.Inc`): resolution is by cleaned path, same
+  base names in different directories are distinct, a path-keyed cache is transparent / order-independent
+  (`c10_include_by_path`, `c10_include_same_basename_distinct`, `c10_include_cache_transparent`, counterexample
+  for a base-name key); tied by op c10prog over include graphs with per-edge origins;
   the sequence `typ:FieldType _ name:Identifier` of Field / TypeDef / Const (`c10_roundtrip_partial`);
   the interpreter itself (`c10_peg_fuel_monotone`: a result obtained with some fuel is the result
   with any larger fuel, so the fuel is not part of the meaning).
@@ -66,6 +70,7 @@ import FV.Proofs.PegTokens
 import FV.Proofs.PegEnums
 import FV.Proofs.PegFields
 import FV.Proofs.PegLiterals
+import FV.Proofs.IdlIncludes
 
 namespace FV.C10
 open FV.Peg FV.Act FV.Syn FV.Generated FV.PegIdl
@@ -286,6 +291,62 @@ theorem c10_string_literal_partial (v next : List Char) (hv : endsBS v = false) 
 
 /-- The recorded finding on the model: the body of `"a\\\\"` (value `a\\`) is not scanned to its end. -/
 theorem c10_string_literal_counterexample : litBodyOk '"' (renderDQ ['a', '\\']) = false ∧ endsBS ['a', '\\'] = true := by
+  decide
+
+/-! ### includes: resolution by path, the parse cache -/
+
+open FV.Inc in
+/-- "The model contains exactly the declared includes": the meaning of a path is the file AT that
+path (its origin is the path, its declarations are that file's), and per include edge the meaning
+of exactly the path the edge resolves to (`filepath.Join` of the including file's directory and the
+written path, cleaned) — for every file system, depth and include graph. -/
+theorem c10_include_by_path {α : Type} (n : Nat) (fs : FS α) (p : Path) (d : Deep α) (h : deep n fs p = some d) :
+    d.origin = p ∧ ∃ m nd subs, n = m + 1 ∧ fs.lookup p = some nd ∧ d.payload = nd.payload ∧
+      subsWith (deep m fs) (dirOf p) nd.includes = some subs ∧ d = .node p nd.payload subs := by
+  obtain ⟨m, nd, subs, hn, hl, hs, rfl⟩ := deep_node n fs p d h
+  exact ⟨rfl, m, nd, subs, hn, hl, rfl, hs, rfl⟩
+
+open FV.Inc in
+/-- Two different paths — whatever their base names — resolve to their own files. -/
+theorem c10_include_same_basename_distinct {α : Type} (n : Nat) (fs : FS α) (p1 p2 : Path) (d1 d2 : Deep α)
+    (h1 : deep n fs p1 = some d1) (h2 : deep n fs p2 = some d2) :
+    d1.origin = p1 ∧ d2.origin = p2 ∧ (∃ nd, fs.lookup p1 = some nd ∧ d1.payload = nd.payload) ∧
+      (∃ nd, fs.lookup p2 = some nd ∧ d2.payload = nd.payload) := by
+  obtain ⟨o1, _, nd1, _, _, l1, e1, _, _⟩ := c10_include_by_path n fs p1 d1 h1
+  obtain ⟨o2, _, nd2, _, _, l2, e2, _, _⟩ := c10_include_by_path n fs p2 d2 h2
+  exact ⟨o1, o2, ⟨nd1, l1, e1⟩, ⟨nd2, l2, e2⟩⟩
+
+open FV.Inc in
+/-- The parse cache is transparent when its key is injective on paths — in particular for the code's key,
+the joined path itself: starting from ANY sound cache (any files visited before, in any order)
+`parseFrugal` returns the meaning of the path; so the result does not depend on the visiting order,
+and a file reached along two routes (a diamond) has the identical model. -/
+theorem c10_include_cache_transparent {α : Type} (fs : FS α) (n : Nat) (c c' : Cache Path α) (p : Path) (d : Deep α)
+    (hc : CacheOk id fs c) (h : deepC id n fs c p = some (c', d)) :
+    CacheOk id fs c' ∧ ∃ m, deep m fs p = some d :=
+  deepC_transparent id (fun _ _ h => h) fs n c p c' d hc h
+
+namespace IncEx
+open FV.Inc
+/-- main -> a/x, b/y; each includes its own ./common.frugal (payload 1 resp. 2). -/
+def fs : FS Nat := [
+  (["main.frugal"], ⟨0, [("x", ["a", "x.frugal"]), ("y", ["b", "y.frugal"])]⟩),
+  (["a", "x.frugal"], ⟨10, [("common", ["common.frugal"])]⟩),
+  (["b", "y.frugal"], ⟨20, [("common", ["common.frugal"])]⟩),
+  (["a", "common.frugal"], ⟨1, []⟩),
+  (["b", "common.frugal"], ⟨2, []⟩)]
+/-- The key of the seeded change C10-m2: the base name. -/
+def baseKey (p : Path) : String := p.getLast?.getD ""
+def yCommon (d : Option (Deep Nat)) : Option (Path × Nat) :=
+  ((d.bind (·.sub? "y")).bind (·.sub? "common")).map fun c => (c.origin, c.payload)
+end IncEx
+
+/-- Why the key must be the path: with the cache keyed by base name, `y`'s `common` is the model of
+`a/common.frugal` (origin and declarations of the wrong file); by path it is `b/common.frugal`. -/
+theorem c10_include_cache_basename_counterexample :
+    IncEx.yCommon ((FV.Inc.deepC IncEx.baseKey 5 IncEx.fs [] ["main.frugal"]).map (·.2)) = some (["a", "common.frugal"], 1) ∧
+    IncEx.yCommon ((FV.Inc.deepC id 5 IncEx.fs [] ["main.frugal"]).map (·.2)) = some (["b", "common.frugal"], 2) ∧
+    IncEx.yCommon (FV.Inc.deep 5 IncEx.fs ["main.frugal"]) = some (["b", "common.frugal"], 2) := by
   decide
 
 /-! ### the interpreter -/
